@@ -52,6 +52,9 @@ ENTITIES = {
     "ITEM": ([], [("iname", STR, False, False)]),
     "NODE": ([], [("nlabel", STR, False, False), ("next", ref("NODE"), True, False),
                   ("others", agg(ref("NODE")), False, False)]),
+    "OPTS": ([], [("oe", COLOR, True, False), ("ob", BOOL, True, False), ("ol", LOGICAL, True, False),
+                  ("orl", REAL, True, False), ("os", STR, True, False), ("obin", BIN, True, False),
+                  ("onum", NUMBER, True, False), ("osel", NUM_OR_LABEL, True, False)]),
 }
 ABSTRACT = {"BASE"}
 # attributes redeclared as DERIVE in a subtype: (entity, supertype attr) -> written as '*'
